@@ -245,6 +245,8 @@ class Rules:
             b = self.sub('R12', RECV + r'\s*\.iter\(\)\s*\.%s\(' % meth, lambda m, h=helper: '%s(&%s, ' % (h, norm_ws(m.group(1)).replace(' ', '')), b)
         b = self.sub('R12', RECV + r'\s*\.iter_mut\(\)\s*\.find\(', lambda m: 'iter_mut_find(&mut %s, ' % norm_ws(m.group(1)).replace(' ', ''), b)
         b = self.sub('R12', RECV + r'\s*\.as_ref\(\)\s*\.is_some_and\(', lambda m: 'opt_is_some_and(%s.as_ref(), ' % norm_ws(m.group(1)).replace(' ', ''), b)
+        # R15: Cow is erased (functions returning Cow<T> return T)
+        b = self.sub('R15', r'\.into_owned\(\)', '', b)
         # R24: `.clone()` -> `.vclone()` (blanket trusted helper: Clone returns a structurally equal value, T4)
         b = self.sub('R24', r'\.clone\(\)', '.vclone()', b)
         return b
